@@ -127,7 +127,8 @@ def body_stream(case, rec):
     buf = case["buffer"]
     nt = any(r[0] == "F" and r[4] == -1 and r[3] - r[2] + 1 > buf for r in rows)
     rec.note(case, nt, ())
-    s = Scaffold("s", conv.mk_rows(rows))
+    sname = case.get("scaffold_name", "s").encode()
+    s = Scaffold(case.get("scaffold_name", "s"), conv.mk_rows(rows))
     with fa.TempFasta(data) as path:
         fai = FastaIndex(path, buf)
         fai.index = fa.ref_index(data)
@@ -141,13 +142,13 @@ def body_stream(case, rec):
 
     def seq_of(b):
         lines = b.split(b"\n")
-        if lines[0] != b">s":
+        if lines[0] != b">" + sname:
             raise Violation(f"bad header {lines[0]!r}")
         return b"".join(lines[1:])
 
     if seq_of(rev) != ref.revcomp(seq_of(fwd)):
         raise Violation(f"stream(reverse(s)) != reverse complement of stream(s): {seq_of(rev)[:50]!r} vs {ref.revcomp(seq_of(fwd))[:50]!r}")
-    if rev != b">s\n" + ref.wrap(ref.revcomp(seq_of(fwd)), 60):
+    if rev != b">" + sname + b"\n" + ref.wrap(ref.revcomp(seq_of(fwd)), 60):
         raise Violation("reversed stream is not wrapped like the forward one")
 
 
@@ -219,7 +220,17 @@ def stream_cases(draw):
             name, n = draw(st.sampled_from(recs))
             a = draw(st.integers(1, n))
             rows.append(["F", name, a, draw(st.integers(a, n)), draw(st.sampled_from([1, -1]))])
-    return {"fasta": f, "rows": rows, "buffer": draw(st.sampled_from([1, 2, 3, 7, 11, 64, 10**6]))}
+    case = {"fasta": f, "rows": rows, "buffer": draw(st.sampled_from([1, 2, 3, 7, 11, 64, 10**6]))}
+    if draw(st.integers(0, 5)) == 0:
+        # the output scaffold is named like another input record of the same length and holds one whole record
+        src = f["records"][0]
+        if len(src[2]) >= 2:
+            src[3], src[4] = 60, "\n"
+            twin = [f"twin{len(f['records']) + 1}", "", src[2][1:] + src[2][0], 60, "\n"]
+            f["records"].append(twin)
+            case["rows"] = [["F", src[0], 1, len(src[2]), 1]]
+            case["scaffold_name"] = twin[0]
+    return case
 
 
 SUBS = [
